@@ -64,11 +64,17 @@ for lvl in ('O0', 'O1', 'O3'):
     builds[lvl] = P.build(d, 'flat_' + lvl, tag='opt_' + lvl)
 
 
+ZERO_SIGN_FREE = False
+
+
 def beq(t, a, b):
+    # identical values: same bits, or both NaN (payloads are outside every property); for the fmin/fmax/fclamp family a zero
+    # result is compared by value, because std::fmin/fmax leave the sign of a zero result unspecified for (+0, -0)
+    z = ' || (%s == 0 && %s == 0)' % (a, b) if ZERO_SIGN_FREE else ''
     if t == 'float':
-        return 'll2c_f32_bits(%s) == ll2c_f32_bits(%s)' % (a, b)
+        return '(ll2c_f32_bits(%s) == ll2c_f32_bits(%s) || (%s != %s && %s != %s)%s)' % (a, b, a, a, b, b, z)
     if t == 'double':
-        return 'll2c_f64_bits(%s) == ll2c_f64_bits(%s)' % (a, b)
+        return '(ll2c_f64_bits(%s) == ll2c_f64_bits(%s) || (%s != %s && %s != %s)%s)' % (a, b, a, a, b, b, z)
     return '%s == %s' % (a, b)
 
 
@@ -92,6 +98,7 @@ for cfg, b in builds.items():
         if cfg in ('O0', 'O1', 'O3') and not OPT_RX.match(n):
             continue
         s = d.shims[n].view_sig()
+        ZERO_SIGN_FREE = bool(re.search(r'_(fmin|fmax|fclamp)\d?_', n))
         args = ', '.join(nm for _, nm in s['ins'])
         ens = []
         if s['ret'] != 'void':
@@ -108,7 +115,7 @@ for cfg, b in builds.items():
                 req.append(('components_not_nan', ' && '.join('%s == %s' % (x, x) for x in fl)))
         P.contract(n, '%s shim %s under %s vs default configuration' % (modname, n, ' '.join(CONFIGS.get(cfg, ['-' + cfg]))),
                    requires=req, ensures=ens, build=b, rel=('cfg_default', [n]), unwind=max(sc.unwind, 12) if (sc is not None and sc.unwind < 60) else 12,
-                   uf_float=('fmul', 'fdiv', 'fadd', 'fsub', 'sqrt', 'imul', 'iudiv', 'iurem', 'isdiv', 'isrem'), timeout=120, tier='quick' if (cfg in QUICK_CFG or cfg == 'O0') and not re.search(r'mul_m4x4_m4x4', n) else 'thorough',
+                   uf_float=('fmul', 'fdiv', 'fadd', 'fsub', 'sqrt', 'imul', 'iudiv', 'iurem', 'isdiv', 'isrem'), timeout=120, tier='quick' if (cfg in QUICK_CFG or cfg == 'O0') and not re.search(r'mul_m4x4_m4x4|mul_m3x3_m3x3_u32', n) else 'thorough',
                    backends=('sat',))
 
 P.level_text = ('for every (configuration, operation) of the generated table the result computed by the code clang extracts under that '
